@@ -23,6 +23,8 @@ PIPELINE = {"name": "p", "priority": 10, "vars": {"admins": ["root", "admin"]}, 
     {"id": "vp", "type": "value_placeholders", "include": ["admins"]},
     {"id": "fm", "type": "field_name_mapping", "mapping": {"f": ["f1", "f2"], "User": "user.name"}},
     {"id": "fmst", "type": "field_name_mapping", "mapping": {"h": "h_win"}, "field_name_conditions": [{"type": "processing_state", "key": "index", "val": "win"}]},
+    {"id": "winmap", "type": "field_name_mapping", "mapping": {"user.name": "WinUser", "g": "gw"}, "rule_conditions": [{"type": "logsource", "product": "windows"}]},
+    {"id": "rawsfx", "type": "field_name_suffix", "suffix": "_raw", "detection_item_conditions": [{"type": "processing_item_applied", "processing_item_id": "winmap"}], "detection_item_cond_not": True},
     {"id": "px", "type": "field_name_prefix", "prefix": "p."},
     {"id": "rs", "type": "replace_string", "regex": "^a$", "replacement": "aa"},
     {"id": "fail", "type": "rule_failure", "message": "unsupported", "rule_conditions": [{"type": "logsource", "category": "zzz"}]}],
